@@ -43,6 +43,8 @@ def userinfoOf (s : String) : Option (Option Userinfo) :=
   tlsload <--tls-cert-file raw hex> <--tls-key-file raw hex>          (`_` = flag not given)
       → `ok <cert hex> <key hex>`   the cert and key attributes of the debug record "loading TLS certificate"
       → `none`                      neither flag given: the record is not written
+  inlineerr <raw value hex> <ok|offset>      (what base64.StdEncoding.DecodeString makes of the payload)
+      → `data` | `file` (not an inline value) | `err <hex>`   the error text of ReadFileOrBase64
   pacproxy <string returned by FindProxyForURL: hex> <--credentials raw values: hex list>
       → `err <hex>`                 pacProxy fails the request with this error text
       → `direct`
@@ -90,6 +92,14 @@ def handle : List String → String
             | some b => hexOfBytes b
             | none => "-"
           s!"via {hexOfBytes u.scheme} {hexOfBytes u.host} {opt (u.user.map (·.user))} {opt (u.user.bind (·.pass))}"
+    | _, _ => "bad-op"
+  | ["inlineerr", raw, outcome] =>
+    match bytesOfHex raw, (if outcome = "ok" then some (Except.ok []) else outcome.toNat?.map Except.error : Option (Except Nat Bytes)) with
+    | some r, some o =>
+      match readFileOrBase64 (fun _ => o) r with
+      | .data _ => "data"
+      | .file _ => "file"
+      | .error e => s!"err {hexOfBytes e}"
     | _, _ => "bad-op"
   | ["absent", secret, text] =>
     match bytesOfHex secret, bytesOfHex text with
